@@ -216,7 +216,7 @@ Lemma wrv_eq_spec s enw en d r : wf_shape s = true -> wf_wport s (WP 0 enw) = tr
   spec_write_row s (granularity (width s) enw) (Z.to_nat enw) en d r.
 Proof.
   intros Hs Hp Hr. pose proof (wf_shape_width s Hs) as Hw.
-  apply in_range_bits_eq; auto.
+  apply (in_range_bits_eq s); auto.
   - apply wrv_in_range; auto. apply mask_range; auto.
   - apply spec_write_row_in_range; auto.
   - intros i Hi. unfold wf_wport in Hp. cbn [wp_enw] in Hp.
@@ -231,5 +231,886 @@ Proof.
     unfold en_cat. rewrite en_cat_from_bits by lia. rewrite Hg.
     rewrite Z2Nat.id by lia.
     replace (i <? width s / enw * enw) with true by nia. cbn [andb]. rewrite Z.add_0_l.
-    rewrite spec_write_row_bits; auto; try lia. rewrite Z2Nat.id by lia. nia.
+    symmetry. apply spec_write_row_bits; auto; try lia. all: rewrite Z2Nat.id by lia; nia.
+Qed.
+
+(* ================================================================== lists *)
+Lemma nth_upd l n v k d : nth k (upd l n v) d = if Nat.eqb k n && Nat.ltb n (length l) then v else nth k l d.
+Proof.
+  revert n k. induction l as [|x l IH]; intros n k.
+  - cbn. destruct k, n; cbn; auto. rewrite andb_false_r. auto.
+  - destruct n, k; cbn [upd nth length]; auto.
+    + rewrite IH. cbn. reflexivity.
+Qed.
+
+Lemma upd_length l n v : length (upd l n v) = length l.
+Proof. revert n. induction l; intros [|n]; cbn; auto. Qed.
+
+Lemma mapi_from_length {A B} (f : nat -> A -> B) n l : length (mapi_from f n l) = length l.
+Proof. revert n. induction l; intros; cbn; auto. Qed.
+Lemma mapi_length {A B} (f : nat -> A -> B) l : length (mapi f l) = length l.
+Proof. apply mapi_from_length. Qed.
+
+Lemma nth_error_mapi_from {A B} (f : nat -> A -> B) n l k :
+  nth_error (mapi_from f n l) k = option_map (f (n + k)%nat) (nth_error l k).
+Proof.
+  revert n k. induction l as [|x l IH]; intros n [|k]; cbn; auto.
+  - rewrite Nat.add_0_r. auto.
+  - rewrite IH. replace (S n + k)%nat with (n + S k)%nat by lia. auto.
+Qed.
+Lemma nth_error_mapi {A B} (f : nat -> A -> B) l k :
+  nth_error (mapi f l) k = option_map (f k) (nth_error l k).
+Proof. apply nth_error_mapi_from. Qed.
+
+Lemma nth_mapi {A B} (f : nat -> A -> B) l k x d : nth_error l k = Some x -> nth k (mapi f l) d = f k x.
+Proof.
+  intros H. apply nth_error_nth. rewrite nth_error_mapi, H. reflexivity.
+Qed.
+
+Lemma nth_error_ext {A} (l1 l2 : list A) : (forall k, nth_error l1 k = nth_error l2 k) -> l1 = l2.
+Proof.
+  revert l2. induction l1 as [|x l1 IH]; intros [|y l2] H; auto.
+  - specialize (H 0%nat). discriminate.
+  - specialize (H 0%nat). discriminate.
+  - pose proof (H 0%nat) as H0. cbn in H0. inversion H0; subst. f_equal.
+    apply IH. intros k. apply (H (S k)).
+Qed.
+
+Lemma mapi_ext {A B} (f g : nat -> A -> B) l :
+  (forall k x, nth_error l k = Some x -> f k x = g k x) -> mapi f l = mapi g l.
+Proof.
+  intros H. apply nth_error_ext. intros k. rewrite !nth_error_mapi.
+  destruct (nth_error l k) eqn:E; cbn; auto. f_equal. apply H; auto.
+Qed.
+
+Lemma mapi_map {A B C} (f : nat -> A -> B) (g : B -> C) l : map g (mapi f l) = mapi (fun k x => g (f k x)) l.
+Proof. unfold mapi. generalize 0%nat. induction l; intros; cbn; auto. f_equal. auto. Qed.
+
+Lemma filter_nil {A} (h : A -> bool) l : (forall x, In x l -> h x = false) -> filter h l = [].
+Proof.
+  induction l as [|x l IH]; intros H; cbn; auto.
+  rewrite (H x) by (left; auto). apply IH. intros; apply H; right; auto.
+Qed.
+
+Lemma filter_snd_filter_ext {A} (h : A -> bool) (p p' : Z * A -> bool) l :
+  (forall x, In x l -> h (snd x) = true -> p x = p' x) ->
+  filter h (map snd (filter p l)) = filter h (map snd (filter p' l)).
+Proof.
+  induction l as [|x l IH]; intros H; cbn; auto.
+  assert (IHl := IH (fun y Hy => H y (or_intror Hy))).
+  destruct (h (snd x)) eqn:Eh.
+  - rewrite (H x) by (auto; left; auto). destruct (p' x); cbn; rewrite ?Eh; rewrite IHl; auto.
+  - destruct (p x), (p' x); cbn; rewrite ?Eh; auto.
+Qed.
+
+(* ================================================================== the write queue *)
+Definition pending (rows : list Z) (q : wqueue) (a : Z) : Z :=
+  match qget q a with Some v => v | None => nth (Z.to_nat a) rows 0 end.
+
+Definition qinv (depth : Z) (q : wqueue) : Prop :=
+  NoDup (map fst q) /\ forall k, In k (map fst q) -> in_depth depth k = true.
+
+Lemma qget_qset q a v b : qget (qset q a v) b = if a =? b then Some v else qget q b.
+Proof.
+  induction q as [|[k x] q IH]; cbn [qset qget].
+  - destruct (a =? b); auto.
+  - destruct (k =? a) eqn:E; cbn [qget].
+    + assert (k = a) by lia; subst. destruct (a =? b); auto.
+    + rewrite IH. destruct (k =? b) eqn:E2; auto. replace (a =? b) with false by lia. auto.
+Qed.
+
+Lemma qset_keys q a v k : In k (map fst (qset q a v)) <-> k = a \/ In k (map fst q).
+Proof.
+  induction q as [|[k0 x] q IH]; cbn [qset map fst In].
+  - intuition.
+  - destruct (k0 =? a) eqn:E; cbn [map fst In].
+    + assert (k0 = a) by lia. subst. intuition.
+    + rewrite IH. intuition.
+Qed.
+
+Lemma qset_nodup q a v : NoDup (map fst q) -> NoDup (map fst (qset q a v)).
+Proof.
+  induction q as [|[k0 x] q IH]; cbn [qset map fst]; intros H.
+  - constructor; [intros []|constructor].
+  - inversion H; subst. destruct (k0 =? a) eqn:E; cbn [map fst].
+    + constructor; auto.
+    + constructor; auto. rewrite qset_keys. intros [->|Hin]; [lia|auto].
+Qed.
+
+Lemma qget_none q a : ~ In a (map fst q) -> qget q a = None.
+Proof.
+  induction q as [|[k x] q IH]; cbn; auto. intros H.
+  destruct (k =? a) eqn:E; [exfalso; apply H; left; lia|]. apply IH. intuition.
+Qed.
+
+Lemma ms_write_qinv s depth rows q a value msk : qinv depth q -> qinv depth (ms_write s depth rows q a value msk).
+Proof.
+  intros [Hn Hk]. unfold ms_write. destruct (in_depth depth a) eqn:E; [|split; auto].
+  split. { apply qset_nodup; auto. }
+  intros k Hin. apply qset_keys in Hin. destruct Hin as [->|Hin]; auto.
+Qed.
+
+Lemma pending_write s depth rows q wa wd we a : in_depth depth a = true ->
+  pending rows (ms_write s depth rows q wa wd we) a =
+  if wa =? a then wrv s (pending rows q a) wd we else pending rows q a.
+Proof.
+  intros Ha. unfold ms_write. destruct (in_depth depth wa) eqn:E.
+  - unfold pending at 1. rewrite qget_qset. destruct (wa =? a) eqn:E2; auto.
+    assert (wa = a) by lia; subst. reflexivity.
+  - destruct (wa =? a) eqn:E2; auto. assert (wa = a) by lia; subst. congruence.
+Qed.
+
+Lemma commit_length rows q : length (ms_commit rows q) = length rows.
+Proof.
+  unfold ms_commit. revert rows. induction q as [|kv q IH]; intros rows; cbn [fold_left]; auto.
+  rewrite IH. apply upd_length.
+Qed.
+
+Lemma commit_nth depth rows q a : qinv depth q -> length rows = Z.to_nat depth -> in_depth depth a = true ->
+  nth (Z.to_nat a) (ms_commit rows q) 0 = pending rows q a.
+Proof.
+  unfold ms_commit, pending. revert rows. induction q as [|[k v] q IH]; intros rows [Hn Hk] Hl Ha.
+  - reflexivity.
+  - cbn [fold_left fst snd qget map] in *. inversion Hn; subst.
+    rewrite IH; auto.
+    2:{ split; auto. intros; apply Hk; right; auto. }
+    2:{ rewrite upd_length; auto. }
+    assert (Hkd : in_depth depth k = true) by (apply Hk; left; auto).
+    unfold in_depth in *.
+    destruct (k =? a) eqn:E.
+    + assert (k = a) by lia; subst. rewrite qget_none by auto.
+      rewrite nth_upd. rewrite Nat.eqb_refl. replace (Z.to_nat a <? length rows)%nat with true by lia. reflexivity.
+    + destruct (qget q a); auto. rewrite nth_upd.
+      replace (Z.to_nat a =? Z.to_nat k)%nat with false by lia. reflexivity.
+Qed.
+
+(* rows seen through a list of queued writes *)
+Definition apply_writes (s : shape) (acts : list action) (a : Z) (r : Z) : Z :=
+  fold_left (fun r (t : action) => let '(wa, wd, we) := t in if wa =? a then wrv s r wd we else r) acts r.
+
+Lemma queue_writes_qinv md rows acts : forall q, qinv (md_depth md) q -> qinv (md_depth md) (queue_writes md rows q acts).
+Proof.
+  unfold queue_writes. induction acts as [|[[wa wd] we] acts IH]; intros q Hq; cbn [fold_left]; auto.
+  apply IH. apply ms_write_qinv; auto.
+Qed.
+
+Lemma pending_queue_writes md rows acts a : in_depth (md_depth md) a = true -> forall q,
+  pending rows (queue_writes md rows q acts) a = apply_writes (md_shape md) acts a (pending rows q a).
+Proof.
+  intros Ha. unfold queue_writes, apply_writes.
+  induction acts as [|[[wa wd] we] acts IH]; intros q; cbn [fold_left]; auto.
+  rewrite IH. rewrite pending_write by auto. reflexivity.
+Qed.
+
+Lemma queue_writes_app md rows q l1 l2 :
+  queue_writes md rows q (l1 ++ l2) = queue_writes md rows (queue_writes md rows q l1) l2.
+Proof. unfold queue_writes. apply fold_left_app. Qed.
+
+Lemma apply_writes_app s l1 l2 a r : apply_writes s (l1 ++ l2) a r = apply_writes s l2 a (apply_writes s l1 a r).
+Proof. unfold apply_writes. apply fold_left_app. Qed.
+
+Lemma apply_writes_in_range s acts a : wf_shape s = true ->
+  Forall (fun t : action => 0 <= snd t < 2 ^ width s) acts ->
+  forall r, in_range s r -> in_range s (apply_writes s acts a r).
+Proof.
+  intros Hs. unfold apply_writes. induction acts as [|[[wa wd] we] acts IH]; intros HF r Hr; cbn [fold_left]; auto.
+  inversion HF; subst. apply IH; auto. destruct (wa =? a); auto. apply wrv_in_range; auto.
+Qed.
+
+(* bit i of row a after the writes: the last write that hits it *)
+Definition hit (a i : Z) (t : action) : bool := let '(wa, wd, we) := t in (wa =? a) && Z.testbit we i.
+Definition bit_after (acts : list action) (a i : Z) (b : bool) : bool :=
+  fold_left (fun b (t : action) => if hit a i t then Z.testbit (snd (fst t)) i else b) acts b.
+
+Lemma apply_writes_bits s acts a i : wf_shape s = true -> 0 <= i < width s -> forall r,
+  Z.testbit (apply_writes s acts a r) i = bit_after acts a i (Z.testbit r i).
+Proof.
+  intros Hs Hi. unfold apply_writes, bit_after.
+  induction acts as [|[[wa wd] we] acts IH]; intros r; cbn [fold_left]; auto.
+  rewrite IH. f_equal. cbn [hit fst snd]. destruct (wa =? a); cbn [andb]; auto.
+  apply wrv_bits; auto.
+Qed.
+
+Lemma bit_after_filter acts a i : forall b, bit_after acts a i b = bit_after (filter (hit a i) acts) a i b.
+Proof.
+  unfold bit_after. induction acts as [|t acts IH]; intros b; cbn [fold_left filter]; auto.
+  destruct (hit a i t) eqn:E; cbn [fold_left]; rewrite ?E; auto.
+Qed.
+
+(* ================================================================== order of the domains' processes *)
+Definition L_model (wv : list (Z * action)) (doms : list (Z * bool)) : list action :=
+  flat_map (fun dr => dom_actions wv (fst dr)) doms.
+Definition L_port (wv : list (Z * action)) (doms : list (Z * bool)) : list action :=
+  map snd (filter (fun t => dom_active doms (fst t)) wv).
+
+Lemma fold_run_domain_fst md rows wv ri doms : forall q rd,
+  fst (fold_left (run_domain md rows wv ri) doms (q, rd)) = queue_writes md rows q (L_model wv doms).
+Proof.
+  induction doms as [|[d rst] doms IH]; intros q rd; cbn [fold_left L_model flat_map].
+  - reflexivity.
+  - cbn [run_domain]. rewrite IH. cbn [fst]. fold (L_model wv doms). rewrite queue_writes_app. reflexivity.
+Qed.
+
+Lemma dom_active_in doms d : dom_active doms d = true -> In d (map fst doms).
+Proof.
+  unfold dom_active. intros H. apply existsb_exists in H. destruct H as (dr & Hin & He).
+  apply in_map_iff. exists dr. split; auto. lia.
+Qed.
+
+Lemma in_L_model wv doms t : In t (L_model wv doms) ->
+  exists x, In x wv /\ snd x = t /\ dom_active doms (fst x) = true.
+Proof.
+  unfold L_model. intros H. apply in_flat_map in H. destruct H as (dr & Hdr & Ht).
+  unfold dom_actions in Ht. apply in_map_iff in Ht. destruct Ht as (x & Hs & Hx).
+  apply filter_In in Hx. destruct Hx as [Hx He]. exists x. repeat split; auto.
+  unfold dom_active. apply existsb_exists. exists dr. split; auto. lia.
+Qed.
+
+Lemma reorder (h : action -> bool) wv doms :
+  NoDup (map fst doms) ->
+  (forall x y, In x wv -> In y wv -> dom_active doms (fst x) = true -> dom_active doms (fst y) = true ->
+               h (snd x) = true -> h (snd y) = true -> fst x = fst y) ->
+  filter h (L_model wv doms) = filter h (L_port wv doms).
+Proof.
+  induction doms as [|[d rst] ds IH]; intros Hnd Hsame.
+  - cbn. unfold L_port. cbn [dom_active existsb]. clear. induction wv; cbn; auto.
+  - cbn [map fst] in Hnd. inversion Hnd as [|? ? Hnotin Hnd']; subst.
+    cbn [L_model flat_map fst]. fold (L_model wv ds). rewrite filter_app.
+    assert (Hact : forall x, dom_active ((d, rst) :: ds) x = (d =? x) || dom_active ds x) by reflexivity.
+    destruct (existsb (fun t => (fst t =? d) && h (snd t)) wv) eqn:Ex.
+    + apply existsb_exists in Ex. destruct Ex as (x0 & Hx0 & Hx0d).
+      apply andb_prop in Hx0d. destruct Hx0d as [Hx0d Hx0h].
+      assert (Hno : forall y, In y wv -> dom_active ds (fst y) = true -> h (snd y) = true -> False).
+      { intros y Hy Hya Hyh. assert (fst x0 = fst y) as Heq.
+        { apply Hsame; auto; rewrite Hact; lia. }
+        apply Hnotin. apply dom_active_in. replace d with (fst y) by lia. auto. }
+      rewrite (filter_nil h (L_model wv ds)).
+      2:{ intros t Ht. destruct (h t) eqn:Eh; auto. exfalso.
+          apply in_L_model in Ht. destruct Ht as (y & Hy & <- & Hya). eapply Hno; eauto. }
+      rewrite app_nil_r. unfold dom_actions, L_port. apply filter_snd_filter_ext.
+      intros y Hy Hyh. rewrite Hact. destruct (dom_active ds (fst y)) eqn:Ea.
+      * exfalso. eapply Hno; eauto.
+      * rewrite orb_false_r. apply Z.eqb_sym.
+    + rewrite (filter_nil h (dom_actions wv d)).
+      2:{ intros t Ht. unfold dom_actions in Ht. apply in_map_iff in Ht. destruct Ht as (x & <- & Hx).
+          apply filter_In in Hx. destruct Hx as [Hx He].
+          destruct (h (snd x)) eqn:Eh; auto.
+          assert (existsb (fun t => (fst t =? d) && h (snd t)) wv = true) as Hc.
+          { apply existsb_exists. exists x. split; auto. rewrite He, Eh. reflexivity. }
+          congruence. }
+      cbn [app]. rewrite IH; auto.
+      2:{ intros x y Hx Hy Hxa Hya. apply Hsame; auto; rewrite Hact; lia. }
+      unfold L_port. apply filter_snd_filter_ext. intros y Hy Hyh. rewrite Hact.
+      destruct (d =? fst y) eqn:E; auto. exfalso.
+      assert (existsb (fun t => (fst t =? d) && h (snd t)) wv = true) as Hc.
+      { apply existsb_exists. exists y. split; auto. rewrite Hyh. lia. }
+      congruence.
+Qed.
+
+Lemma hit_overlap depth a i x y : in_depth depth a = true -> 0 <= i -> hit a i x = true -> hit a i y = true ->
+  acts_overlap depth x y = true.
+Proof.
+  destruct x as [[xa xd] xe], y as [[ya yd] ye]. cbn [hit acts_overlap]. intros Ha Hi Hx Hy.
+  assert (xa = a /\ Z.testbit xe i = true) as [-> Hxe] by lia.
+  assert (ya = a /\ Z.testbit ye i = true) as [-> Hye] by lia.
+  rewrite Z.eqb_refl, Ha. cbn [andb].
+  destruct (Z.land xe ye =? 0) eqn:E; auto.
+  assert (Z.land xe ye = 0) as H0 by lia.
+  assert (Z.testbit (Z.land xe ye) i = true) as H1 by (rewrite Z.land_spec, Hxe, Hye; auto).
+  rewrite H0, Z.bits_0 in H1. discriminate.
+Qed.
+
+Lemma no_cross_collision_same md doms wi a i : no_cross_collision md doms wi = true ->
+  in_depth (md_depth md) a = true -> 0 <= i ->
+  forall x y, In x (all_wvals md wi) -> In y (all_wvals md wi) ->
+    dom_active doms (fst x) = true -> dom_active doms (fst y) = true ->
+    hit a i (snd x) = true -> hit a i (snd y) = true -> fst x = fst y.
+Proof.
+  unfold no_cross_collision. intros H Ha Hi x y Hx Hy Hxa Hya Hxh Hyh.
+  rewrite forallb_forall in H. specialize (H x). rewrite forallb_forall in H.
+  assert (In x (filter (fun t => dom_active doms (fst t)) (all_wvals md wi))) as Hx' by (apply filter_In; auto).
+  assert (In y (filter (fun t => dom_active doms (fst t)) (all_wvals md wi))) as Hy' by (apply filter_In; auto).
+  specialize (H Hx' y Hy'). rewrite (hit_overlap (md_depth md) a i) in H by auto. cbn in H. lia.
+Qed.
+
+(* row a after all processes of the event ran and the queue was committed *)
+Lemma model_rows md rows wv ri doms rd a :
+  length rows = Z.to_nat (md_depth md) -> in_depth (md_depth md) a = true ->
+  nth (Z.to_nat a) (ms_commit rows (fst (fold_left (run_domain md rows wv ri) doms ([], rd)))) 0 =
+  apply_writes (md_shape md) (L_model wv doms) a (nth (Z.to_nat a) rows 0).
+Proof.
+  intros Hl Ha. rewrite fold_run_domain_fst.
+  rewrite (commit_nth (md_depth md)); auto.
+  2:{ apply queue_writes_qinv. split; [constructor | intros k []]. }
+  rewrite pending_queue_writes by auto. reflexivity.
+Qed.
+
+Lemma nodupb_NoDup l : nodupb l = true -> NoDup l.
+Proof.
+  induction l as [|x l IH]; cbn [nodupb]; intros H; constructor.
+  - intros Hin. assert (existsb (Z.eqb x) l = true) as He.
+    { apply existsb_exists. exists x. split; auto. apply Z.eqb_refl. }
+    rewrite He in H. discriminate.
+  - apply IH. destruct (nodupb l); auto. rewrite andb_false_r in H. discriminate.
+Qed.
+
+Lemma in_mapi {A B} (f : nat -> A -> B) l y : In y (mapi f l) -> exists k x, nth_error l k = Some x /\ y = f k x.
+Proof.
+  intros H. apply In_nth_error in H. destruct H as [k Hk]. rewrite nth_error_mapi in Hk.
+  destruct (nth_error l k) eqn:E; cbn in Hk; [|discriminate]. inversion Hk. eauto.
+Qed.
+
+Lemma all_wvals_masks md wi x : 0 <= md_width md -> In x (all_wvals md wi) ->
+  0 <= snd (snd x) < 2 ^ md_width md.
+Proof.
+  intros Hw H. apply in_mapi in H. destruct H as (k & p & _ & ->). cbn [snd wvals]. apply mask_range; auto.
+Qed.
+
+Lemma L_model_masks md wi doms : 0 <= md_width md ->
+  Forall (fun t : action => 0 <= snd t < 2 ^ md_width md) (L_model (all_wvals md wi) doms).
+Proof.
+  intros Hw. apply Forall_forall. intros t Ht. apply in_L_model in Ht. destruct Ht as (x & Hx & <- & _).
+  apply (all_wvals_masks md wi); auto.
+Qed.
+
+Lemma L_port_masks md wi doms : 0 <= md_width md ->
+  Forall (fun t : action => 0 <= snd t < 2 ^ md_width md) (L_port (all_wvals md wi) doms).
+Proof.
+  intros Hw. apply Forall_forall. intros t Ht. unfold L_port in Ht. apply in_map_iff in Ht.
+  destruct Ht as (x & <- & Hx). apply filter_In in Hx. apply (all_wvals_masks md wi); tauto.
+Qed.
+
+Lemma apply_writes_reorder md doms wi a r :
+  wf_shape (md_shape md) = true ->
+  nodupb (map fst doms) = true -> no_cross_collision md doms wi = true ->
+  in_depth (md_depth md) a = true -> in_range (md_shape md) r ->
+  apply_writes (md_shape md) (L_model (all_wvals md wi) doms) a r =
+  apply_writes (md_shape md) (L_port (all_wvals md wi) doms) a r.
+Proof.
+  intros Hs Hnd Hnc Ha Hr. pose proof (wf_shape_width _ Hs) as Hw.
+  apply (in_range_bits_eq (md_shape md)); auto.
+  - apply apply_writes_in_range; auto. apply L_model_masks; auto.
+  - apply apply_writes_in_range; auto. apply L_port_masks; auto.
+  - intros i Hi. rewrite !apply_writes_bits by auto.
+    rewrite bit_after_filter. rewrite (bit_after_filter (L_port _ _)).
+    rewrite (reorder (hit a i)); auto.
+    + apply nodupb_NoDup; auto.
+    + intros x y Hx Hy Hxa Hya Hxh Hyh. apply (no_cross_collision_same md doms wi a i Hnc Ha ltac:(lia) x y); auto.
+Qed.
+
+(* ================================================================== model actions = specification actions *)
+Definition tag_mact (s : shape) (t : Z * sact) : Z * action := (fst t, mact_of s (snd t)).
+
+Lemma all_wvals_sacts md wi : all_wvals md wi = map (tag_mact (md_shape md)) (all_sacts md wi).
+Proof.
+  unfold all_wvals, all_sacts. rewrite mapi_map. apply mapi_ext. intros k p _. reflexivity.
+Qed.
+
+Lemma L_port_spec s sa doms : L_port (map (tag_mact s) sa) doms = map (mact_of s) (spec_writes sa doms).
+Proof.
+  unfold L_port, spec_writes. induction sa as [|t sa IH]; cbn [map filter]; auto.
+  cbn [tag_mact fst]. destruct (dom_active doms (fst t)); cbn [map snd tag_mact]; rewrite IH; auto.
+Qed.
+
+Lemma transp_spec s sa tr : transp_actions (map (tag_mact s) sa) tr = map (mact_of s) (spec_transp sa tr).
+Proof.
+  unfold transp_actions, spec_transp. induction tr as [|idx tr IH]; cbn [flat_map map]; auto.
+  rewrite map_app, IH. f_equal. rewrite nth_error_map. destruct (nth_error sa idx); cbn; auto.
+Qed.
+
+Lemma spec_apply_eq s acts a : wf_shape s = true -> Forall (wf_sact s) acts -> forall r, in_range s r ->
+  spec_apply s acts a r = apply_writes s (map (mact_of s) acts) a r.
+Proof.
+  intros Hs. unfold spec_apply, apply_writes.
+  induction acts as [|[[[wa enw] en] d] acts IH]; intros HF r Hr; cbn [fold_left map]; auto.
+  inversion HF as [|? ? Hwf HF']; subst. cbn [mact_of]. cbn [wf_sact] in Hwf.
+  destruct (wa =? a).
+  - rewrite wrv_eq_spec by auto. apply IH; auto. apply spec_write_row_in_range; auto.
+  - apply IH; auto.
+Qed.
+
+Lemma spec_apply_in_range s acts a : wf_shape s = true -> forall r, in_range s r -> in_range s (spec_apply s acts a r).
+Proof.
+  intros Hs. unfold spec_apply. induction acts as [|[[[wa enw] en] d] acts IH]; intros r Hr; cbn [fold_left]; auto.
+  apply IH. destruct (wa =? a); auto. apply spec_write_row_in_range; auto.
+Qed.
+
+Lemma wf_md_parts md : wf_md md = true ->
+  wf_shape (md_shape md) = true /\ 0 <= md_depth md /\ forallb (wf_wport (md_shape md)) (md_wports md) = true.
+Proof. unfold wf_md. intros H. repeat (apply andb_prop in H; destruct H as [H ?]). repeat split; auto. lia. Qed.
+
+Lemma all_sacts_wf md wi x : wf_md md = true -> In x (all_sacts md wi) -> wf_sact (md_shape md) (snd x).
+Proof.
+  intros Hmd H. destruct (wf_md_parts md Hmd) as (_ & _ & Hp).
+  apply in_mapi in H. destruct H as (k & p & Hk & ->). cbn [snd spec_wact wf_sact].
+  rewrite forallb_forall in Hp. specialize (Hp p (nth_error_In _ _ Hk)).
+  unfold wf_wport in *. cbn [wp_enw]. exact Hp.
+Qed.
+
+Lemma spec_writes_wf md wi doms : wf_md md = true -> Forall (wf_sact (md_shape md)) (spec_writes (all_sacts md wi) doms).
+Proof.
+  intros Hmd. apply Forall_forall. intros t Ht. unfold spec_writes in Ht. apply in_map_iff in Ht.
+  destruct Ht as (x & <- & Hx). apply filter_In in Hx. apply (all_sacts_wf md wi); tauto.
+Qed.
+
+Lemma spec_transp_wf md wi tr : wf_md md = true -> Forall (wf_sact (md_shape md)) (spec_transp (all_sacts md wi) tr).
+Proof.
+  intros Hmd. apply Forall_forall. intros t Ht. unfold spec_transp in Ht. apply in_flat_map in Ht.
+  destruct Ht as (idx & _ & Ht). destruct (nth_error (all_sacts md wi) idx) as [x|] eqn:E; [|destruct Ht].
+  destruct Ht as [<-|[]]. apply (all_sacts_wf md wi); auto. eapply nth_error_In; eauto.
+Qed.
+
+(* ------------------------------------------------------------------ the transparency patch *)
+Lemma patch_fold_bits a acts i : 0 <= i -> forall v,
+  Z.testbit (fold_left (patch a) acts v) i = bit_after acts a i (Z.testbit v i).
+Proof.
+  intros Hi. unfold bit_after. induction acts as [|[[wa wd] we] acts IH]; intros v; cbn [fold_left]; auto.
+  rewrite IH. f_equal. cbn [patch hit fst snd]. rewrite (Z.eqb_sym wa a). destruct (a =? wa); cbn [andb]; auto.
+  rewrite Z.lor_spec, !Z.land_spec, Z.lnot_spec by auto.
+  destruct (Z.testbit we i); rewrite ?andb_true_r, ?andb_false_r, ?orb_false_r; auto.
+Qed.
+
+Lemma patched_read_eq s acts a v : wf_shape s = true ->
+  Forall (fun t : action => 0 <= snd t < 2 ^ width s) acts -> in_range s v ->
+  norm s (fold_left (patch a) acts v) = apply_writes s acts a v.
+Proof.
+  intros Hs HF Hv. apply (in_range_bits_eq s); auto.
+  - apply norm_in_range; auto.
+  - apply apply_writes_in_range; auto.
+  - intros i Hi. rewrite norm_bits_low by auto. rewrite patch_fold_bits by lia.
+    rewrite apply_writes_bits by auto. reflexivity.
+Qed.
+
+Lemma transp_masks md wi tr : 0 <= md_width md ->
+  Forall (fun t : action => 0 <= snd t < 2 ^ md_width md) (transp_actions (all_wvals md wi) tr).
+Proof.
+  intros Hw. apply Forall_forall. intros t Ht. unfold transp_actions in Ht. apply in_flat_map in Ht.
+  destruct Ht as (idx & _ & Ht). destruct (nth_error (all_wvals md wi) idx) as [x|] eqn:E; [|destruct Ht].
+  destruct Ht as [<-|[]]. apply (all_wvals_masks md wi); auto. eapply nth_error_In; eauto.
+Qed.
+
+(* ------------------------------------------------------------------ read data registers over the domains of an event *)
+Definition port_step (md : memd) (rows : list Z) (wv : list (Z * action)) (p : rport) (r : rin)
+                     (cur : Z) (dr : Z * bool) : Z :=
+  match rp_dom p with
+  | Some d' => if d' =? fst dr then sync_read md rows wv (snd dr) p r cur else cur
+  | None => cur
+  end.
+
+Lemma fold_run_domain_snd md rows wv ri doms j p : nth_error (md_rports md) j = Some p -> forall q rd,
+  nth j (snd (fold_left (run_domain md rows wv ri) doms (q, rd))) 0 =
+  fold_left (port_step md rows wv p (ri j)) doms (nth j rd 0).
+Proof.
+  intros Hj. induction doms as [|[d rst] doms IH]; intros q rd; cbn [fold_left]; auto.
+  cbn [run_domain]. rewrite IH. f_equal.
+  rewrite (nth_mapi _ _ _ p) by auto. unfold port_step. cbn [fst snd]. reflexivity.
+Qed.
+
+Lemma port_fold_inactive md rows wv p r doms d : rp_dom p = Some d -> dom_active doms d = false ->
+  forall cur, fold_left (port_step md rows wv p r) doms cur = cur.
+Proof.
+  intros Hp. induction doms as [|[d0 r0] doms IH]; intros Ha cur; cbn [fold_left]; auto.
+  cbn [dom_active existsb fst] in Ha. fold (dom_active doms d) in Ha.
+  unfold port_step at 2. rewrite Hp. cbn [fst]. replace (d =? d0) with false by lia. apply IH. lia.
+Qed.
+
+Lemma port_fold_spec md rows wv p r doms : NoDup (map fst doms) -> forall cur,
+  fold_left (port_step md rows wv p r) doms cur =
+  match rp_dom p with
+  | None => cur
+  | Some d => if dom_active doms d then sync_read md rows wv (dom_rst doms d) p r cur else cur
+  end.
+Proof.
+  destruct (rp_dom p) as [d|] eqn:Hp.
+  2:{ intros _. induction doms as [|dr doms IH]; intros cur; cbn [fold_left]; auto.
+      unfold port_step at 2. rewrite Hp. apply IH. }
+  induction doms as [|[d0 r0] doms IH]; intros Hnd cur; cbn [fold_left]; auto.
+  cbn [map fst] in Hnd. inversion Hnd as [|? ? Hnotin Hnd']; subst.
+  cbn [dom_active dom_rst existsb fst snd]. fold (dom_active doms d). fold (dom_rst doms d).
+  unfold port_step at 2. rewrite Hp. cbn [fst snd].
+  destruct (d =? d0) eqn:E.
+  - assert (d = d0) by lia; subst d0. rewrite Z.eqb_refl. cbn [orb andb].
+    assert (dom_active doms d = false) as Hna.
+    { destruct (dom_active doms d) eqn:Ea; auto. exfalso. apply Hnotin. apply dom_active_in; auto. }
+    rewrite (port_fold_inactive md rows wv p r doms d) by auto.
+    assert (dom_rst doms d = false) as Hnr.
+    { unfold dom_rst. destruct (existsb _ doms) eqn:Ee; auto. exfalso. apply Hnotin.
+      apply existsb_exists in Ee. destruct Ee as (dr & Hin & He). apply in_map_iff. exists dr. split; auto. lia. }
+    rewrite Hnr, orb_false_r. reflexivity.
+  - replace (d0 =? d) with false by lia. cbn [orb andb]. apply IH; auto.
+Qed.
+
+(* ================================================================== one event: the simulated memory = the array *)
+Lemma nth_in_range s rows k : wf_shape s = true -> Forall (in_range s) rows -> in_range s (nth k rows 0).
+Proof.
+  intros Hs HF. destruct (Nat.lt_ge_cases k (length rows)) as [Hlt|Hge].
+  - rewrite Forall_forall in HF. apply HF. apply nth_In; auto.
+  - rewrite nth_overflow by auto. apply in_range_0; auto.
+Qed.
+
+Lemma spec_read_in_range md rows a : wf_shape (md_shape md) = true -> Forall (in_range (md_shape md)) rows ->
+  in_range (md_shape md) (spec_read md rows a).
+Proof.
+  intros Hs HF. unfold spec_read. destruct (in_depth (md_depth md) a).
+  - apply nth_in_range; auto.
+  - apply in_range_0; auto.
+Qed.
+
+Lemma Forall_mapi {A B} (P : B -> Prop) (f : nat -> A -> B) l :
+  (forall k x, nth_error l k = Some x -> P (f k x)) -> Forall P (mapi f l).
+Proof.
+  intros H. apply Forall_forall. intros y Hy. apply in_mapi in Hy. destruct Hy as (k & x & Hk & ->). eauto.
+Qed.
+
+Lemma wrv_full s cur v : wf_shape s = true -> in_range s cur -> wrv s cur v (2 ^ width s - 1) = norm s v.
+Proof.
+  intros Hs Hc. pose proof (wf_shape_width s Hs) as Hw. pose proof (pow2_pos (width s) Hw).
+  rewrite wrv_norm by (auto; lia). apply norm_low_bits; auto. intros i Hi.
+  rewrite merge_bits by lia. replace (2 ^ width s - 1) with (Z.ones (width s)) by (rewrite Z.ones_equiv; lia).
+  rewrite Z.ones_spec_low by lia. reflexivity.
+Qed.
+
+Lemma in_depth_of_nat depth k : (k < Z.to_nat depth)%nat -> in_depth depth (Z.of_nat k) = true.
+Proof. unfold in_depth. lia. Qed.
+
+Lemma step_rows md st doms wi ri rd :
+  wf_md md = true -> wf_state md st -> nodupb (map fst doms) = true -> no_cross_collision md doms wi = true ->
+  ms_commit (st_rows st) (fst (fold_left (run_domain md (st_rows st) (all_wvals md wi) ri) doms ([], rd))) =
+  mapi (fun a old => spec_apply (md_shape md) (spec_writes (all_sacts md wi) doms) (Z.of_nat a) old) (st_rows st).
+Proof.
+  intros Hmd (Hl & HF & _) Hnd Hnc. destruct (wf_md_parts md Hmd) as (Hs & Hd & _).
+  apply (nth_ext _ _ 0 0).
+  { rewrite commit_length, mapi_length. reflexivity. }
+  intros k Hk. rewrite commit_length in Hk.
+  assert (Ha : in_depth (md_depth md) (Z.of_nat k) = true) by (apply in_depth_of_nat; lia).
+  pose proof (model_rows md (st_rows st) (all_wvals md wi) ri doms rd (Z.of_nat k) Hl Ha) as Hm.
+  rewrite Nat2Z.id in Hm. rewrite Hm.
+  destruct (nth_error (st_rows st) k) as [x|] eqn:Ex.
+  2:{ apply nth_error_None in Ex. lia. }
+  rewrite (nth_mapi _ _ _ x) by auto. rewrite (nth_error_nth _ _ 0 Ex).
+  assert (Hx : in_range (md_shape md) x).
+  { rewrite Forall_forall in HF. apply HF. eapply nth_error_In; eauto. }
+  rewrite apply_writes_reorder by auto.
+  rewrite all_wvals_sacts, L_port_spec. symmetry. apply spec_apply_eq; auto.
+  apply spec_writes_wf; auto.
+Qed.
+
+Lemma spec_rows_wf md (f : Z -> Z -> Z) rows :
+  wf_shape (md_shape md) = true ->
+  (forall a old, in_range (md_shape md) old -> in_range (md_shape md) (f a old)) ->
+  Forall (in_range (md_shape md)) rows ->
+  Forall (in_range (md_shape md)) (mapi (fun a old => f (Z.of_nat a) old) rows).
+Proof.
+  intros Hs Hf HF. apply Forall_mapi. intros k x Hk. apply Hf.
+  rewrite Forall_forall in HF. apply HF. eapply nth_error_In; eauto.
+Qed.
+
+Lemma sync_read_spec_eq md st doms wi ri p j :
+  wf_md md = true -> wf_state md st ->
+  sync_read md (st_rows st) (all_wvals md wi) (dom_rst doms (match rp_dom p with Some d => d | None => 0 end)) p (ri j)
+            (nth j (st_rdata st) 0) =
+  if Z.odd (ri_en (ri j))
+  then spec_apply (md_shape md) (spec_transp (all_sacts md wi) (rp_transp p)) (mask (md_abits md) (ri_addr (ri j)))
+                  (spec_read md (st_rows st) (mask (md_abits md) (ri_addr (ri j))))
+  else if dom_rst doms (match rp_dom p with Some d => d | None => 0 end) then rp_init p else nth j (st_rdata st) 0.
+Proof.
+  intros Hmd (Hl & HF & _). destruct (wf_md_parts md Hmd) as (Hs & Hd & _).
+  pose proof (wf_shape_width _ Hs) as Hw.
+  unfold sync_read. destruct (Z.odd (ri_en (ri j))); auto.
+  change (ms_read (md_depth md) (st_rows st)) with (spec_read md (st_rows st)).
+  rewrite patched_read_eq; auto.
+  2:{ apply transp_masks; auto. }
+  2:{ apply spec_read_in_range; auto. }
+  rewrite all_wvals_sacts, transp_spec. symmetry. apply spec_apply_eq; auto.
+  - apply spec_transp_wf; auto.
+  - apply spec_read_in_range; auto.
+Qed.
+
+Theorem step_refines md st ev : wf_md md = true -> wf_state md st -> ev_ok md ev = true ->
+  mem_step md st ev = spec_step md st ev.
+Proof.
+  intros Hmd Hst Hev. pose proof Hst as (Hl & HF & Hrl). destruct (wf_md_parts md Hmd) as (Hs & Hd & _).
+  destruct ev as [doms wi ri | i v].
+  - cbn [ev_ok] in Hev. apply andb_prop in Hev. destruct Hev as [Hnd Hnc].
+    cbn [mem_step spec_step].
+    destruct (fold_left (run_domain md (st_rows st) (all_wvals md wi) ri) doms ([], st_rdata st)) as [q rd] eqn:Ef.
+    assert (Hq : q = fst (fold_left (run_domain md (st_rows st) (all_wvals md wi) ri) doms ([], st_rdata st))) by (rewrite Ef; auto).
+    assert (Hrd : rd = snd (fold_left (run_domain md (st_rows st) (all_wvals md wi) ri) doms ([], st_rdata st))) by (rewrite Ef; auto).
+    assert (Hrows := step_rows md st doms wi ri (st_rdata st) Hmd Hst Hnd Hnc). rewrite <- Hq in Hrows.
+    rewrite Hrows. f_equal.
+    unfold comb_update. apply mapi_ext. intros j p Hj.
+    destruct (rp_dom p) as [d|] eqn:Hp.
+    + rewrite Hrd. rewrite (fold_run_domain_snd md _ _ ri doms j p Hj).
+      rewrite port_fold_spec by (apply nodupb_NoDup; auto). rewrite Hp.
+      destruct (dom_active doms d); auto.
+      pose proof (sync_read_spec_eq md st doms wi ri p j Hmd Hst) as Hsr. rewrite Hp in Hsr. exact Hsr.
+    + change (ms_read (md_depth md)) with (spec_read md). apply norm_id; auto.
+      apply spec_read_in_range; auto.
+      apply (spec_rows_wf md (fun a old => spec_apply (md_shape md) (spec_writes (all_sacts md wi) doms) a old)); auto.
+      intros; apply spec_apply_in_range; auto.
+  - cbn [mem_step spec_step].
+    assert (Hrows : ms_commit (st_rows st) (ms_write (md_shape md) (md_depth md) (st_rows st) [] i v (2 ^ md_width md - 1)) =
+                    mapi (fun a old => if Z.of_nat a =? i then norm (md_shape md) v else old) (st_rows st)).
+    { apply (nth_ext _ _ 0 0).
+      { rewrite commit_length, mapi_length. reflexivity. }
+      intros k Hk. rewrite commit_length in Hk.
+      assert (Ha : in_depth (md_depth md) (Z.of_nat k) = true) by (apply in_depth_of_nat; lia).
+      pose proof (commit_nth (md_depth md) (st_rows st)
+                    (ms_write (md_shape md) (md_depth md) (st_rows st) [] i v (2 ^ md_width md - 1)) (Z.of_nat k)) as Hc.
+      rewrite Nat2Z.id in Hc. rewrite Hc; auto.
+      2:{ apply ms_write_qinv. split; [constructor | intros ? []]. }
+      rewrite pending_write by auto. unfold pending. cbn [qget]. rewrite Nat2Z.id.
+      destruct (nth_error (st_rows st) k) as [x|] eqn:Ex.
+      2:{ apply nth_error_None in Ex. lia. }
+      rewrite (nth_mapi _ _ _ x) by auto. rewrite (nth_error_nth _ _ 0 Ex).
+      rewrite (Z.eqb_sym i). destruct (Z.of_nat k =? i); auto.
+      apply wrv_full; auto. rewrite Forall_forall in HF. apply HF. eapply nth_error_In; eauto. }
+    rewrite Hrows. f_equal. unfold comb_update. apply mapi_ext. intros j p Hj.
+    destruct (rp_dom p); auto.
+    change (ms_read (md_depth md)) with (spec_read md). apply norm_id; auto.
+    apply spec_read_in_range; auto.
+    apply (spec_rows_wf md (fun a old => if a =? i then norm (md_shape md) v else old)); auto.
+    intros a old Ho. destruct (a =? i); auto. apply norm_in_range; auto.
+Qed.
+
+Lemma spec_step_wf md st ev : wf_md md = true -> wf_state md st -> wf_state md (spec_step md st ev).
+Proof.
+  intros Hmd (Hl & HF & Hrl). destruct (wf_md_parts md Hmd) as (Hs & Hd & _).
+  destruct ev as [doms wi ri | i v]; cbn [spec_step]; unfold wf_state; cbn [st_rows st_rdata];
+    rewrite !mapi_length; repeat split; auto.
+  - apply (spec_rows_wf md (fun a old => spec_apply (md_shape md) (spec_writes (all_sacts md wi) doms) a old)); auto.
+    intros; apply spec_apply_in_range; auto.
+  - apply (spec_rows_wf md (fun a old => if a =? i then norm (md_shape md) v else old)); auto.
+    intros a old Ho. destruct (a =? i); auto. apply norm_in_range; auto.
+Qed.
+
+Lemma mem_step_wf md st ev : wf_md md = true -> wf_state md st -> ev_ok md ev = true -> wf_state md (mem_step md st ev).
+Proof. intros. rewrite step_refines by auto. apply spec_step_wf; auto. Qed.
+
+Theorem run_refines md evs : wf_md md = true -> forall st, wf_state md st ->
+  forallb (ev_ok md) evs = true -> mem_run md st evs = spec_run md st evs.
+Proof.
+  intros Hmd. unfold mem_run, spec_run. induction evs as [|ev evs IH]; intros st Hst Hok; cbn [fold_left]; auto.
+  cbn [forallb] in Hok. apply andb_prop in Hok. destruct Hok as [Hev Hok].
+  rewrite step_refines by auto. apply IH; auto. apply spec_step_wf; auto.
+Qed.
+
+Lemma in_firstn {A} n (l : list A) x : In x (firstn n l) -> In x l.
+Proof. revert l. induction n; intros [|y l]; cbn; intuition. Qed.
+
+Lemma init_state_wf md init : wf_md md = true -> wf_state md (init_state md init).
+Proof.
+  intros Hmd. destruct (wf_md_parts md Hmd) as (Hs & Hd & _).
+  unfold wf_state, init_state, init_rows. cbn [st_rows st_rdata]. repeat split.
+  - rewrite firstn_length, app_length, repeat_length. lia.
+  - apply Forall_forall. intros x Hx. apply in_firstn in Hx. apply in_app_or in Hx. destruct Hx as [Hx|Hx].
+    + apply in_map_iff in Hx. destruct Hx as (y & <- & _). apply norm_in_range; auto.
+    + apply repeat_spec in Hx. subst. apply in_range_0; auto.
+  - apply map_length.
+Qed.
+
+(* ================================================================== the clauses of the property *)
+Definition saddr (t : sact) : Z := fst (fst (fst t)).
+
+Lemma spec_apply_app s l1 l2 a r : spec_apply s (l1 ++ l2) a r = spec_apply s l2 a (spec_apply s l1 a r).
+Proof. unfold spec_apply. apply fold_left_app. Qed.
+
+Lemma spec_apply_none s acts a r : (forall t, In t acts -> saddr t <> a) -> spec_apply s acts a r = r.
+Proof.
+  unfold spec_apply. revert r. induction acts as [|[[[wa enw] en] d] acts IH]; intros r H; cbn [fold_left]; auto.
+  assert (wa <> a) by (apply (H (wa, enw, en, d)); left; auto).
+  replace (wa =? a) with false by lia. apply IH. intros; apply H; right; auto.
+Qed.
+
+Section Clauses.
+  Variable md : memd.
+  Variable st : mstate.
+  Hypothesis Hmd : wf_md md = true.
+  Hypothesis Hst : wf_state md st.
+
+  Let s := md_shape md.
+  Let w := md_width md.
+
+  (* rows after an event, all write ports together: the requested writes are applied in PORT order *)
+  Lemma rows_after_step doms wi ri a : ev_ok md (EStep doms wi ri) = true -> in_depth (md_depth md) a = true ->
+    nth (Z.to_nat a) (st_rows (mem_step md st (EStep doms wi ri))) 0 =
+    spec_apply s (spec_writes (all_sacts md wi) doms) a (nth (Z.to_nat a) (st_rows st) 0).
+  Proof.
+    intros Hev Ha. rewrite step_refines by auto. cbn [spec_step st_rows].
+    destruct Hst as (Hl & _ & _). unfold in_depth in Ha.
+    destruct (nth_error (st_rows st) (Z.to_nat a)) as [x|] eqn:Ex.
+    2:{ apply nth_error_None in Ex. lia. }
+    rewrite (nth_mapi _ _ _ x) by auto. rewrite (nth_error_nth _ _ 0 Ex). rewrite Z2Nat.id by lia. reflexivity.
+  Qed.
+
+  (* write_port_spec: the only port addressing row a replaces exactly its enabled granules *)
+  Lemma write_port_sole doms wi ri a l1 l2 enw en d :
+    ev_ok md (EStep doms wi ri) = true -> in_depth (md_depth md) a = true ->
+    spec_writes (all_sacts md wi) doms = l1 ++ (a, enw, en, d) :: l2 ->
+    (forall t, In t (l1 ++ l2) -> saddr t <> a) ->
+    nth (Z.to_nat a) (st_rows (mem_step md st (EStep doms wi ri))) 0 =
+    spec_write_row s (granularity (width s) enw) (Z.to_nat enw) en d (nth (Z.to_nat a) (st_rows st) 0).
+  Proof.
+    intros Hev Ha Hw Hno. rewrite rows_after_step by auto. rewrite Hw.
+    rewrite spec_apply_app. rewrite (spec_apply_none s l1) by (intros; apply Hno; apply in_or_app; auto).
+    change ((a, enw, en, d) :: l2) with ([(a, enw, en, d)] ++ l2). rewrite spec_apply_app.
+    rewrite (spec_apply_none s l2) by (intros; apply Hno; apply in_or_app; auto).
+    unfold spec_apply. cbn [fold_left]. rewrite Z.eqb_refl. reflexivity.
+  Qed.
+
+  (* everything else unchanged; in particular writes beyond the depth change nothing *)
+  Lemma write_frame doms wi ri a :
+    ev_ok md (EStep doms wi ri) = true -> in_depth (md_depth md) a = true ->
+    (forall t, In t (spec_writes (all_sacts md wi) doms) -> saddr t <> a) ->
+    nth (Z.to_nat a) (st_rows (mem_step md st (EStep doms wi ri))) 0 = nth (Z.to_nat a) (st_rows st) 0.
+  Proof. intros Hev Ha Hno. rewrite rows_after_step by auto. apply spec_apply_none; auto. Qed.
+
+  Lemma write_beyond_depth doms wi ri :
+    ev_ok md (EStep doms wi ri) = true ->
+    (forall t, In t (spec_writes (all_sacts md wi) doms) -> md_depth md <= saddr t) ->
+    st_rows (mem_step md st (EStep doms wi ri)) = st_rows st.
+  Proof.
+    intros Hev Hno. pose proof (mem_step_wf md st _ Hmd Hst Hev) as (Hl' & _ & _).
+    destruct Hst as (Hl & _ & _).
+    apply (nth_ext _ _ 0 0); [lia|]. intros k Hk.
+    assert (Ha : in_depth (md_depth md) (Z.of_nat k) = true) by (apply in_depth_of_nat; lia).
+    pose proof (write_frame doms wi ri (Z.of_nat k) Hev Ha) as Hf. rewrite Nat2Z.id in Hf. apply Hf.
+    intros t Ht. specialize (Hno t Ht). unfold in_depth in Ha. lia.
+  Qed.
+
+  (* same-domain (indeed any permitted) collision: the later port in port order is applied last *)
+  Lemma collision_port_order doms wi ri a l enw en d :
+    ev_ok md (EStep doms wi ri) = true -> in_depth (md_depth md) a = true ->
+    spec_writes (all_sacts md wi) doms = l ++ [(a, enw, en, d)] ->
+    nth (Z.to_nat a) (st_rows (mem_step md st (EStep doms wi ri))) 0 =
+    spec_write_row s (granularity (width s) enw) (Z.to_nat enw) en d
+                   (spec_apply s l a (nth (Z.to_nat a) (st_rows st) 0)).
+  Proof.
+    intros Hev Ha Hw. rewrite rows_after_step by auto. rewrite Hw, spec_apply_app.
+    unfold spec_apply at 1. cbn [fold_left]. rewrite Z.eqb_refl. reflexivity.
+  Qed.
+
+  (* read ports after a step *)
+  Lemma rdata_after_step doms wi ri j p : ev_ok md (EStep doms wi ri) = true ->
+    nth_error (md_rports md) j = Some p ->
+    nth j (st_rdata (mem_step md st (EStep doms wi ri))) 0 =
+    let a := mask (md_abits md) (ri_addr (ri j)) in
+    match rp_dom p with
+    | None => spec_read md (st_rows (mem_step md st (EStep doms wi ri))) a
+    | Some d =>
+        if dom_active doms d then
+          if Z.odd (ri_en (ri j))
+          then spec_apply s (spec_transp (all_sacts md wi) (rp_transp p)) a (spec_read md (st_rows st) a)
+          else if dom_rst doms d then rp_init p else nth j (st_rdata st) 0
+        else nth j (st_rdata st) 0
+    end.
+  Proof.
+    intros Hev Hj. rewrite step_refines by auto. cbn [spec_step st_rows st_rdata].
+    rewrite (nth_mapi _ _ _ p) by auto. reflexivity.
+  Qed.
+
+  Lemma async_read doms wi ri j p : ev_ok md (EStep doms wi ri) = true ->
+    nth_error (md_rports md) j = Some p -> rp_dom p = None ->
+    nth j (st_rdata (mem_step md st (EStep doms wi ri))) 0 =
+    spec_read md (st_rows (mem_step md st (EStep doms wi ri))) (mask (md_abits md) (ri_addr (ri j))).
+  Proof. intros Hev Hj Hp. rewrite (rdata_after_step doms wi ri j p) by auto. rewrite Hp. reflexivity. Qed.
+
+  Lemma async_read_tb i v j p :
+    nth_error (md_rports md) j = Some p -> rp_dom p = None ->
+    nth j (st_rdata (mem_step md st (ETbSet i v))) 0 =
+    spec_read md (st_rows (mem_step md st (ETbSet i v))) (mask (md_abits md) (ri_addr (st_rin st j))).
+  Proof.
+    intros Hj Hp. rewrite step_refines by auto. cbn [spec_step st_rows st_rdata].
+    rewrite (nth_mapi _ _ _ p) by auto. rewrite Hp. reflexivity.
+  Qed.
+
+  Lemma sync_read_pre_edge doms wi ri j p d : ev_ok md (EStep doms wi ri) = true ->
+    nth_error (md_rports md) j = Some p -> rp_dom p = Some d -> dom_active doms d = true ->
+    Z.odd (ri_en (ri j)) = true -> rp_transp p = [] ->
+    nth j (st_rdata (mem_step md st (EStep doms wi ri))) 0 =
+    spec_read md (st_rows st) (mask (md_abits md) (ri_addr (ri j))).
+  Proof.
+    intros Hev Hj Hp Ha He Ht. rewrite (rdata_after_step doms wi ri j p) by auto.
+    cbv zeta. rewrite Hp, Ha, He, Ht. reflexivity.
+  Qed.
+
+  Lemma transparent_read doms wi ri j p d : ev_ok md (EStep doms wi ri) = true ->
+    nth_error (md_rports md) j = Some p -> rp_dom p = Some d -> dom_active doms d = true ->
+    Z.odd (ri_en (ri j)) = true ->
+    nth j (st_rdata (mem_step md st (EStep doms wi ri))) 0 =
+    spec_apply s (spec_transp (all_sacts md wi) (rp_transp p)) (mask (md_abits md) (ri_addr (ri j)))
+               (spec_read md (st_rows st) (mask (md_abits md) (ri_addr (ri j)))).
+  Proof.
+    intros Hev Hj Hp Ha He. rewrite (rdata_after_step doms wi ri j p) by auto.
+    cbv zeta. rewrite Hp, Ha, He. reflexivity.
+  Qed.
+
+  Lemma read_hold doms wi ri j p d : ev_ok md (EStep doms wi ri) = true ->
+    nth_error (md_rports md) j = Some p -> rp_dom p = Some d ->
+    dom_active doms d = false \/ (Z.odd (ri_en (ri j)) = false /\ dom_rst doms d = false) ->
+    nth j (st_rdata (mem_step md st (EStep doms wi ri))) 0 = nth j (st_rdata st) 0.
+  Proof.
+    intros Hev Hj Hp H. rewrite (rdata_after_step doms wi ri j p) by auto. cbv zeta. rewrite Hp.
+    destruct H as [Ha | [He Hr]].
+    - rewrite Ha. reflexivity.
+    - rewrite He, Hr. destruct (dom_active doms d); reflexivity.
+  Qed.
+
+  Lemma read_hold_tb i v j p d : nth_error (md_rports md) j = Some p -> rp_dom p = Some d ->
+    nth j (st_rdata (mem_step md st (ETbSet i v))) 0 = nth j (st_rdata st) 0.
+  Proof.
+    intros Hj Hp. rewrite step_refines by auto. cbn [spec_step st_rdata].
+    rewrite (nth_mapi _ _ _ p) by auto. rewrite Hp. reflexivity.
+  Qed.
+
+  (* testbench row access *)
+  Lemma tb_set_get i v a : in_depth (md_depth md) a = true ->
+    tb_get md (mem_step md st (ETbSet i v)) a = if a =? i then norm s v else tb_get md st a.
+  Proof.
+    intros Ha. unfold tb_get, ms_read. rewrite Ha. rewrite step_refines by auto. cbn [spec_step st_rows].
+    destruct Hst as (Hl & _ & _). unfold in_depth in Ha.
+    destruct (nth_error (st_rows st) (Z.to_nat a)) as [x|] eqn:Ex.
+    2:{ apply nth_error_None in Ex. lia. }
+    rewrite (nth_mapi _ _ _ x) by auto. rewrite (nth_error_nth _ _ 0 Ex). rewrite Z2Nat.id by lia. reflexivity.
+  Qed.
+
+  Lemma tb_get_after_port_write doms wi ri a : ev_ok md (EStep doms wi ri) = true -> in_depth (md_depth md) a = true ->
+    tb_get md (mem_step md st (EStep doms wi ri)) a =
+    spec_apply s (spec_writes (all_sacts md wi) doms) a (tb_get md st a).
+  Proof. intros Hev Ha. unfold tb_get, ms_read. rewrite Ha. apply rows_after_step; auto. Qed.
+End Clauses.
+
+(* an event with the clock of ONE domain needs no collision hypothesis *)
+Lemma single_domain_ok md d rst wi ri : ev_ok md (EStep [(d, rst)] wi ri) = true.
+Proof.
+  cbn [ev_ok map fst nodupb existsb]. cbn [negb andb].
+  unfold no_cross_collision. apply forallb_forall. intros x Hx. apply forallb_forall. intros y Hy.
+  apply filter_In in Hx. apply filter_In in Hy. destruct Hx as [_ Hx], Hy as [_ Hy].
+  cbn [dom_active existsb fst] in Hx, Hy. replace (fst x =? fst y) with true by lia. reflexivity.
+Qed.
+
+(* the order in which the simulator runs the processes of simultaneous edges is immaterial *)
+Lemma spec_step_doms_ext md st doms doms' wi ri :
+  (forall d, dom_active doms d = dom_active doms' d) -> (forall d, dom_rst doms d = dom_rst doms' d) ->
+  spec_step md st (EStep doms wi ri) = spec_step md st (EStep doms' wi ri).
+Proof.
+  intros Ha Hr. cbn [spec_step].
+  assert (Hw : spec_writes (all_sacts md wi) doms = spec_writes (all_sacts md wi) doms').
+  { unfold spec_writes. f_equal. apply filter_ext. intros t. apply Ha. }
+  rewrite Hw. f_equal. apply mapi_ext. intros j p Hj. destruct (rp_dom p); auto.
+  rewrite Ha, Hr. reflexivity.
+Qed.
+
+Lemma edge_order_irrelevant md st doms doms' wi ri : wf_md md = true -> wf_state md st ->
+  ev_ok md (EStep doms wi ri) = true -> ev_ok md (EStep doms' wi ri) = true ->
+  (forall d, dom_active doms d = dom_active doms' d) -> (forall d, dom_rst doms d = dom_rst doms' d) ->
+  mem_step md st (EStep doms wi ri) = mem_step md st (EStep doms' wi ri).
+Proof. intros. rewrite !step_refines by auto. apply spec_step_doms_ext; auto. Qed.
+
+Lemma run_wf md evs : wf_md md = true -> forall st, wf_state md st ->
+  forallb (ev_ok md) evs = true -> wf_state md (mem_run md st evs).
+Proof.
+  intros Hmd. unfold mem_run. induction evs as [|ev evs IH]; intros st Hst Hok; cbn [fold_left]; auto.
+  cbn [forallb] in Hok. apply andb_prop in Hok. destruct Hok as [Hev Hok].
+  apply IH; auto. apply mem_step_wf; auto.
 Qed.
